@@ -90,6 +90,41 @@ func c17Admission(c *core.Ctx, r *core.Report, sm *summaries) {
 	}
 	holdsPop := func(f *ssa.Function) bool { return holdsPopD(f, 0) }
 	usesActive := func(f *ssa.Function) bool { return len(callsTo(f, active)) > 0 }
+	// the admission step — capacity test, removal, registration — is in the loop function itself, or in one
+	// function of the package that the loop calls on every turn (the `default:` arm extracted)
+	hasStep := func(f *ssa.Function) bool {
+		dec, take := false, false
+		for _, b := range f.Blocks {
+			for _, in := range b.Instrs {
+				if isPop(in) {
+					take = true
+				}
+				switch x := in.(type) {
+				case *ssa.Call:
+					if h := x.Call.StaticCallee(); samePkg(h) {
+						if holdsPop(h) {
+							take = true
+						}
+						if usesActive(h) {
+							dec = true
+						}
+					}
+					if core.IsCallTo(x, active) {
+						dec = true
+					}
+				}
+			}
+		}
+		return dec && take
+	}
+	if !hasStep(fn) {
+		for _, ci := range core.CallsIn(fn) {
+			if h := ci.Common().StaticCallee(); samePkg(h) && h.Parent() == nil && hasStep(h) {
+				fn = h
+				break
+			}
+		}
+	}
 	var takes []ssa.Instruction
 	var decisions []ssa.Value
 	for _, b := range fn.Blocks {
